@@ -1,4 +1,9 @@
 import Toodee.Driver.Proto
+import Toodee.Impl.Copy
+import Toodee.Impl.Sort
+import Toodee.Impl.Translate
+import Toodee.Impl.Insert
+import Toodee.Impl.Remove
 /-
   The driver's interpreter: for one op line and the harness's previous observation it computes the
   Impl-model's predicted observation (`M`).  The Spec verdicts (`S`) are in `Toodee/Driver/Oracle.lean`.
@@ -97,7 +102,7 @@ structure MOut where
   c : Nat
   r : Nat
   drops : List Nat := []
-  created : Nat := 0
+  leaked : Nat := 0          -- elements this op leaked (alive but owned by nobody)
 deriving Repr
 
 def errStatus : Err → String
